@@ -30,7 +30,7 @@ def shards(tier):
 
 
 def required_classes(tier):
-    return ["soak:valid-public-keys", "honest:custom-suite", "honest:basic", "honest:aug", "honest:pop", "pop", "reject:range", "reject:type", "keygen", "keygen:retry(W5)", "key:boundary", "key:bitlen", "key:random",
+    return ["threads:sign+verify", "soak:valid-public-keys", "honest:custom-suite", "honest:basic", "honest:aug", "honest:pop", "pop", "reject:range", "reject:type", "keygen", "keygen:retry(W5)", "key:boundary", "key:bitlen", "key:random",
             "msg:empty", "msg:block-boundary", "msg:pk"]
 
 
@@ -133,6 +133,11 @@ def run(rec):
         soak_then_reprobe(rec, "valid-public-keys", [lambda: honest(rec, suiteA, suites[suiteA], skA, mA), lambda: pop(rec, suites["pop"], skA)], valid_keys(), nsoak)
     else:
         rec.case("soak:valid-public-keys", None, nontrivial=False)
+    # ---- concurrent use
+    if rec.shard % 8 == 6 or not quick:
+        threads_phase(rec, suites)
+    else:
+        rec.case("threads:sign+verify", None, nontrivial=False)
     # ---- refused keys (monitor M-bls.reject decides)
     for j, bad in enumerate(BAD_KEYS):
         if not rec.mine(j):
@@ -170,11 +175,32 @@ def run(rec):
             honest(rec, suite, suites[suite], sk, b"after-retry")
 
 
+def threads_phase(rec, suites):
+    """Signing and verifying while other threads sign and verify (a thread pool of signers / verifiers)."""
+    from ..model import bls as MB
+    from .common import threaded_reprobe
+    rng = rec.rng
+    thunks = []
+    for suite, S in suites.items():
+        sk, m = rng.randrange(1, R), rng.randbytes(rng.choice([0, 32, 70]))
+        pk, sig = MB.sk_to_pk(sk), MB.sign(suite, sk, m)
+        thunks.append(("Sign[%s]" % suite, lambda S=S, sk=sk, m=m: S.Sign(sk, m)))
+        thunks.append(("Verify[%s]" % suite, lambda S=S, pk=pk, m=m, sig=sig: S.Verify(pk, m, sig)))
+    skp = rng.randrange(1, R)
+    pkp, prf = MB.sk_to_pk(skp), MB.pop_prove(skp)
+    thunks.append(("PopProve", lambda: suites["pop"].PopProve(skp)))
+    thunks.append(("PopVerify", lambda: suites["pop"].PopVerify(pkp, prf)))
+    thunks.append(("SkToPk", lambda: suites["basic"].SkToPk(skp)))
+    threaded_reprobe(rec, "sign+verify", thunks, threads=3 if rec.tier == "quick" else 4, rounds=1 if rec.tier == "quick" else 4)
+
+
 def replay(rec, case):
     import_all()
     cs = bmon.install(pair_arg=False)
     suites = {"basic": cs.G2Basic, "aug": cs.G2MessageAugmentation, "pop": cs.G2ProofOfPossession}
     fn = case.get("fn")
+    if fn == "threads":
+        return threads_phase(rec, suites)
     S = suites.get(case.get("suite", "basic"), cs.G2Basic)
     if fn == "sign-verify":
         honest(rec, case["suite"], S, case["sk"], case["msg"])
